@@ -185,3 +185,63 @@ package skiplist
 //@ ensures forall k int {result[k]} :: 0 <= k && k < len(result) ==> result[k] != nil && result[k] != MaxItem
 //@ ensures len(result) == 0 || (ptr(result) >= old(brk()) && ptr(result) + 8 * len(result) <= brk())
 //@ ensures forall a int {memptr(a)} :: a < old(brk()) ==> memptr(a) == old(memptr(a))
+
+// ---------------------------------------------------------------------------
+// C18: bulk builder. Ghost per segment: sq0 = the level-0 sequence of the segment (in insertion order), cnt.
+// ---------------------------------------------------------------------------
+
+//@ ghost field Segment.sq0 [int]*Node
+//@ ghost field Segment.cnt int
+
+//@ callback-field Skiplist.newNode(fn ref, itm ref, level int) n *Node
+//@ modifies heap($alive), heap($brk)
+//@ ensures n != nil && n >= old(brk()) && n + 40 <= brk() && n < 72057594037927936 && n.itm == itm && n.level == level && n.Link == nil
+
+//@ callback-type skiplist.NodeCallback(fn ref, n *Node)
+//@ pure-call
+
+//@ callback-field Config.ItemSize(fn ref, itm ref) sz int
+//@ pure-call
+
+//@ func (*Skiplist).Size
+//@ trusted sums the item size callback and the node size; no effect
+//@ pure-call
+
+//@ func (*Skiplist).NewLevel
+//@ trusted level choice (random function, CAS on the list level); verified separately under C13/C14
+//@ modifies s.level
+//@ ensures 0 <= result && result <= 32
+
+//@ pure wfSegShape(s *Segment) bool = s != nil && s.builder != nil && s.builder.store != nil && len(s.tail) == 33 && len(s.head) == 33 &&
+//@     (ptr(s.tail) + 8 * 33 <= ptr(s.head) || ptr(s.head) + 8 * 33 <= ptr(s.tail)) && ptr(s.tail) + 8 * 33 <= brk() && ptr(s.head) + 8 * 33 <= brk() && s.cnt >= 0
+//@ pure wfSegEnds(s *Segment) bool = (s.cnt == 0 ==> s.head[0] == nil && s.tail[0] == nil) && (s.cnt > 0 ==> s.head[0] == s.sq0[0] && s.tail[0] == s.sq0[s.cnt - 1])
+//@ pure wfSegNodes(s *Segment) bool = forall i int {s.sq0[i]} :: 0 <= i && i < s.cnt ==> s.sq0[i] != nil && s.sq0[i] < brk()
+//@ pure wfSegDistinct(s *Segment) bool = forall i, j int {s.sq0[i], s.sq0[j]} :: 0 <= i && i < j && j < s.cnt ==> s.sq0[i] != s.sq0[j]
+//@ pure wfSegChain(s *Segment) bool = forall i, j int {s.sq0[i], s.sq0[j]} :: 0 <= i && j == i + 1 && j < s.cnt ==> s.sq0[i].nx[0] == s.sq0[j] && !s.sq0[i].del[0]
+//@ pure wfSegLevels(s *Segment) bool = forall l int {s.head[l]} :: 0 <= l && l <= 32 ==> (s.head[l] == nil <==> s.tail[l] == nil)
+//@ pure wfSeg(s *Segment) bool = wfSegShape(s) && wfSegEnds(s) && wfSegNodes(s) && wfSegDistinct(s) && wfSegChain(s) && wfSegLevels(s)
+
+//@ func (*Segment).Add
+//@ props C18 C14
+//@ requires wfSeg(s) && s.cnt < 1099511627776
+//@ modifies elems(s.tail), elems(s.head), heap(Node.$nx), heap(Node.$del), s.sq0, s.cnt, s.builder.store.level, heap($alive), heap($brk)
+//@ modifies s.sts.nodeAllocs, s.sts.usedBytes, heap(Stats.levelNodesCount)
+//@ loop 1 invariant[bounds] 0 <= l && l <= itemLevel + 1 && 0 <= itemLevel && itemLevel <= 32 && x != nil && x >= old(brk()) && x.itm == itm && s.cnt == old(s.cnt) && s.sq0 == old(s.sq0)
+//@ loop 1 invariant[shape] len(s.tail) == 33 && len(s.head) == 33 && ptr(s.tail) == old(ptr(s.tail)) && ptr(s.head) == old(ptr(s.head)) && s.builder == old(s.builder)
+//@ loop 1 invariant[done] forall k int {s.tail[k]} :: 0 <= k && k < l ==> s.tail[k] == x && s.head[k] != nil
+//@ loop 1 invariant[todo] forall k int {s.tail[k]} :: l <= k && k <= 32 ==> s.tail[k] == old(s.tail[k]) && s.head[k] == old(s.head[k])
+//@ loop 1 invariant[head0] l >= 1 ==> (old(s.cnt) == 0 ==> s.head[0] == x) && (old(s.cnt) > 0 ==> s.head[0] == old(s.head[0]) && old(s.tail[0]).nx[0] == x && !old(s.tail[0]).del[0])
+//@ loop 1 invariant[chain] forall i, j int {s.sq0[i], s.sq0[j]} :: 0 <= i && j == i + 1 && j < s.cnt ==> s.sq0[i].nx[0] == s.sq0[j] && !s.sq0[i].del[0]
+//@ loop 1 decreases itemLevel + 1 - l
+//@ ghost-exit s.sq0[s.cnt] := x
+//@ ghost-exit s.cnt := s.cnt + 1
+//@ ensures[append] s.cnt == old(s.cnt) + 1 && s.sq0[old(s.cnt)] != nil && s.sq0[old(s.cnt)].itm == itm && (forall i int {s.sq0[i]} :: 0 <= i && i < old(s.cnt) ==> s.sq0[i] == old(s.sq0[i]))
+//@ ensures[fresh] s.sq0[old(s.cnt)] >= old(brk())
+//@ ensures[wf-shape] wfSegShape(s)
+//@ ensures[wf-ends] wfSegEnds(s)
+//@ ensures[wf-nodes] wfSegNodes(s)
+//@ ensures[wf-distinct] wfSegDistinct(s)
+//@ ensures[wf-chain] wfSegChain(s)
+//@ ensures[wf-levels] wfSegLevels(s)
+//@ ensures[allocs] s.sts.nodeAllocs == old(s.sts.nodeAllocs) + 1 || !s.sts.isLocal
+//@ nopanic
